@@ -134,6 +134,8 @@ pub fn run_item(prop: &str, tier: &str, idx: usize, only: Option<&Value>) -> MRe
     for ti in lo..hi {
         let tree = &sc.trees[ti];
         if let Some(o) = only { if o["tree_idx"].as_u64() != Some(ti as u64) { continue; } }
+        // C04 quantifies over at most 40 link traversals
+        if prop == "C04" && tree.0.len() > 41 { continue; }
         clear_dir(&root_out)?;
         tree.build(&root_out)?;
         let snap = snapshot(&root_out)?;
@@ -149,6 +151,12 @@ pub fn run_item(prop: &str, tier: &str, idx: usize, only: Option<&Value>) -> MRe
         for p in paths {
             if let Some(o) = only { if o["path"].as_str() != Some(p.as_str()) { continue; } }
             cases.extend(lookup_ops(p, &flagsets, &[0, RESOLVE_NO_SYMLINKS], sc.thorough));
+        }
+        if prop == "C04" && !is_chain {
+            // the same lookups through a Root that wraps a caller-supplied O_RDONLY descriptor, for the paths that end on the root
+            for p in ["..", "../..", "a/..", ".", "/", "b/../..", "a/../../b"] {
+                for mut c in lookup_ops(p, &flagsets[..2.min(flagsets.len())], &[0], false) { c.op.root = Some(format!("rdonly:{}", ROOT_IN)); cases.push(c); }
+            }
         }
         if let Some(o) = only {
             let want: Op = serde_json::from_value(o["op"].clone()).map_err(|e| Mach(format!("bad replay op: {}", e)))?;
@@ -226,7 +234,7 @@ pub fn run_item(prop: &str, tier: &str, idx: usize, only: Option<&Value>) -> MRe
                 let (gk, ge) = (got_of(&ko[i]), got_of(&eo[i]));
                 let same_kind = ko[i].kind == eo[i].kind;
                 if gk != ge || !same_kind {
-                    let key = format!("lookup:{}:{}:K={}/{} E={}/{}", c.op.name, path_class(path), short(&gk), ko[i].kind.clone().unwrap_or_default(), short(&ge), eo[i].kind.clone().unwrap_or_default());
+                    let key = format!("lookup:{}{}:{}:K={}/{} E={}/{}", c.op.name, if c.op.root.as_deref().map(|r| r.starts_with("rdonly:")).unwrap_or(false) { "[rdonly-root]" } else { "" }, path_class(path), short(&gk), ko[i].kind.clone().unwrap_or_default(), short(&ge), eo[i].kind.clone().unwrap_or_default());
                     res.violate(key, format!("tree [{}] {}: kernel backend gives {} ({}), emulated backend gives {} ({})", tree.text(), c.op.brief(),
                         want_text(&gk, &labels), ko[i].msg.clone().unwrap_or_default(), want_text(&ge, &labels), eo[i].msg.clone().unwrap_or_default()),
                         json!({"engine": "lookup", "item": idx, "tree_idx": ti, "tree": tree.text(), "path": path, "op": c.op}));
